@@ -177,6 +177,11 @@ pub struct FnSpec {
     pub attr_rotation: usize,
     /// write destructuring patterns for parameters of Copy tuple / struct / tuple-struct type
     pub destructure: bool,
+    /// define the function through a `macro_rules!` template whose return type and argument
+    /// types arrive as `ty` fragments (the proc macro then sees them inside invisible groups)
+    pub via_template: bool,
+    /// parameter names (default a0, a1, ...)
+    pub arg_names: Vec<String>,
 }
 
 impl FnSpec {
@@ -205,6 +210,8 @@ impl FnSpec {
             explicit_global_scope: false,
             attr_rotation: 0,
             destructure: false,
+            via_template: false,
+            arg_names: Vec::new(),
         }
     }
 
@@ -302,7 +309,8 @@ impl FnSpec {
                     params.push(format!("{tup}: {}", t.text()));
                     rebuild.push(format!("let a{i} = {tup};"));
                 }
-                _ => params.push(format!("a{i}: {}", t.text())),
+                _ if self.via_template => params.push(format!("{}: $t{i}", self.arg_name(i))),
+                _ => params.push(format!("{}: {}", self.arg_name(i), t.text())),
             }
         }
         let mut parts: Vec<String> = Vec::new();
@@ -310,11 +318,16 @@ impl FnSpec {
             parts.push("__recv as &dyn Enc".into());
         }
         for i in 0..self.args.len() {
-            parts.push(format!("&a{i} as &dyn Enc"));
+            let n = if matches!(self.args[i], TyD::UPoint | TyD::UWrap | TyD::Tup(_)) && self.destructure { format!("a{i}") } else { self.arg_name(i) };
+            parts.push(format!("&{n} as &dyn Enc"));
         }
         let indent = if self.receiver != Receiver::None { "    " } else { "" };
         if self.receiver != Receiver::None {
             out.push_str("impl UserS {\n");
+        }
+        if self.via_template {
+            let tys: Vec<String> = (0..self.args.len()).map(|i| format!("$t{i}:ty")).collect();
+            let _ = writeln!(out, "macro_rules! __tmpl_{} {{\n    ($ret:ty{}{}) => {{", self.fn_name, if tys.is_empty() { "" } else { ", " }, tys.join(", "));
         }
         if attrs.is_empty() {
             let _ = writeln!(out, "{indent}#[{mac}]");
@@ -327,7 +340,7 @@ impl FnSpec {
             if is_async { "async " } else { "" },
             self.fn_name,
             params.join(", "),
-            self.ret_text()
+            if self.via_template { "$ret" } else { self.ret_text() }
         );
         if self.receiver != Receiver::None {
             let _ = writeln!(out, "{indent}    let __recv: &UserS = &self;");
@@ -341,10 +354,18 @@ impl FnSpec {
         let body_fn = if self.ret == RetKind::Plain { "body_plain" } else { "body_result" };
         let _ = writeln!(out, "{indent}    vrt::{body_fn}({}, {}, &[{}])", self.id, self.pad, parts.join(", "));
         let _ = writeln!(out, "{indent}}}");
+        if self.via_template {
+            let tys: Vec<String> = self.args.iter().map(|t| t.text()).collect();
+            let _ = writeln!(out, "    }};\n}}\n__tmpl_{}!({}{}{});", self.fn_name, self.ret_text(), if tys.is_empty() { "" } else { ", " }, tys.join(", "));
+        }
         if self.receiver != Receiver::None {
             out.push_str("}\n");
         }
         out.push('\n');
+    }
+
+    pub fn arg_name(&self, i: usize) -> String {
+        self.arg_names.get(i).cloned().unwrap_or_else(|| format!("a{i}"))
     }
 
     pub fn emit_desc(&self, out: &mut String) {
@@ -851,6 +872,65 @@ pub fn static_corpus() -> Vec<FnSpec> {
                     v.push(s);
                 }
             }
+        }
+    }
+    // functions defined through macro_rules! templates (return and argument types as `ty` fragments)
+    for &fl in &flavours {
+        for &ret in &[RetKind::Plain, RetKind::ResultShort, RetKind::ResultStd] {
+            for k in 0..2 {
+                let i = id();
+                let mut s = FnSpec::new(i, &format!("tmpl_{}_{:04}", fl_tag(fl), i), "tmpl", fl);
+                s.ret = ret;
+                s.via_template = true;
+                if k == 1 {
+                    s.limit = Some(2);
+                    s.policy = Some(Policy::Lru);
+                    s.max_memory = Some(("\"4KB\"".to_string(), 4096));
+                }
+                v.push(s);
+            }
+        }
+    }
+    // parameters with everyday names (an identifier the expansion introduces must never capture one)
+    {
+        let sets: [&[&str]; 10] = [
+            &["buf"],
+            &["key", "value"],
+            &["result", "cache"],
+            &["order", "map", "entry"],
+            &["data", "len"],
+            &["k", "v"],
+            &["stats", "ttl"],
+            &["id", "name"],
+            &["ret", "val", "tmp"],
+            &["s", "out", "this"],
+        ];
+        for (k, names) in sets.iter().enumerate() {
+            for &fl in &flavours {
+                for &rc in &[Receiver::None, Receiver::Ref] {
+                    let i = id();
+                    let mut s = FnSpec::new(i, &format!("names_{}_{:02}_{:04}", fl_tag(fl), k, i), "names", fl);
+                    s.receiver = rc;
+                    s.args = names.iter().enumerate().map(|(j, _)| [TyD::String, TyD::U32, TyD::StrRef, TyD::Slice(Box::new(TyD::U8))][(k + j) % 4].clone()).collect();
+                    s.arg_names = names.iter().map(|n| n.to_string()).collect();
+                    v.push(s);
+                }
+            }
+        }
+    }
+    // dependency graphs between named caches: a mutual pair, a chain, a self-dependency
+    for (g, &fl) in [Flavour::Global, Flavour::Async].iter().enumerate() {
+        let nm = |k: usize| format!("dg{}_{}", g, k);
+        let layout: [(usize, Vec<usize>, bool); 6] = [(0, vec![1], false), (1, vec![0], false), (2, vec![3], false), (3, vec![4], false), (4, vec![], true), (5, vec![5, 0], false)];
+        for (k, deps, tagged) in layout.iter() {
+            let i = id();
+            let mut s = FnSpec::new(i, &format!("depg_{}_{}_{:04}", fl_tag(fl), k, i), "depg", fl);
+            s.name = Some(nm(*k));
+            s.deps = deps.iter().map(|d| nm(*d)).collect();
+            if *tagged {
+                s.tags = vec!["dgt".to_string()];
+            }
+            v.push(s);
         }
     }
     // larger caches: bulk fills and sweeps (thresholds inside the library show only at scale)
